@@ -42,6 +42,12 @@ def shards(tier, seed):
             sh += mk('d=4: subsets <=2 blades x grid', spaces.cfg_pqr(*t), ('S', 2), 4, grid=3)
         for t in [(6, 0, 0), (5, 0, 1), (7, 0, 0)]:
             sh += mk('d=6,7 (iterative scheme): structured sparse patterns, tolerance 1e-9', spaces.cfg_pqr(*t), ('sparse2',), 4, grid=2, tol=True)
+        for t in [(5, 0, 0), (4, 0, 1)]:
+            sh += mk('d=5 (closed form, exact): scalar+blade patterns x grid, sums of commuting blades', spaces.cfg_pqr(*t), ('list', 'scalar+biv2'), 1, grid=3)
+            sh += mk('d=5 (closed form, exact): scalar+blade patterns x grid, sums of commuting blades', spaces.cfg_pqr(*t), ('commuting',), 1, grid=0, ones=True)
+        for t in [(4, 0, 0), (3, 1, 0), (6, 0, 0), (5, 1, 0)]:
+            sh += mk('d=4,6: sums of pairwise commuting blades (maximal minimal polynomial)', spaces.cfg_pqr(*t), ('commuting',), 1, grid=0, ones=True, tol=(t[0] + t[1] >= 6))
+        sh += mk('d=7: sum of four pairwise commuting blades (full length of the iterative scheme)', spaces.cfg_pqr(7, 0, 0), ('list', 'commuting1'), 1, grid=0, ones=True, tol=True)
     else:
         for s in spaces.sig(3):
             sh += mk('d=3 all 27 orderings: subsets <=4 blades x grid {-2..2}^k', spaces.cfg_sig(s), ('S', 4), 6, grid=4)
@@ -60,6 +66,8 @@ def shards(tier, seed):
             sh += mk('d=6,7 (iterative scheme): structured sparse patterns and scalar+bivector, tolerance 1e-9', spaces.cfg_pqr(*t), ('list', 'scalar+biv2'), 1, grid=0, ones=True, tol=True)
         for n in ('2DPGA', '3DPGA'):
             sh += mk('named custom bases: subsets <=2 blades x grid', spaces.NAMED[n], ('S', 2), 4, grid=3)
+        for t in [(4, 0, 0), (3, 0, 1), (5, 0, 0), (4, 0, 1), (2, 3, 0), (6, 0, 0), (5, 0, 1), (3, 3, 0), (7, 0, 0), (6, 0, 1), (4, 3, 0)]:
+            sh += mk('d=4..7: sums of pairwise commuting blades (maximal minimal polynomial), with and without scalar part', spaces.cfg_pqr(*t), ('commuting',), 4, grid=0, ones=True, tol=(sum(t) >= 6))
     for d in (1, 2):
         for order in (spaces.sig(d), list(reversed(spaces.sig(d)))):
             sh.append(dict(stratum='all signature orderings of d<=2 one after the other in one process (two orders)',
@@ -75,8 +83,18 @@ def patterns(shard, alg):
         from itertools import combinations
         menu = list(dict.fromkeys([c[0], c[1], c[2], c[alg.d], c[alg.d + 1], c[alg.d + 2], c[len(c) // 2], c[-2], c[-1]]))
         pats = [t for k in (1, 2) for t in combinations(menu, k)]
+    elif spec[0] == 'commuting':
+        # sums of pairwise commuting blades e1 + e23 + e45 (+ e67): their minimal polynomial has the maximal degree
+        # 2^ceil(d/2), so they exercise the full length of the closed forms / of the iterative scheme
+        d = alg.d
+        blades = [c[1]] + [c[1 + j] ^ c[2 + j] for j in range(1, d - 1, 2)]
+        blades = [b for b in blades if b in c]
+        pats = [tuple(blades), (0,) + tuple(blades), tuple(reversed(blades))] + ([tuple(blades[:-1])] if len(blades) > 2 else [])
     elif spec[0] == 'list' and spec[1] == 'grades012':
         pats = [tuple(k for k in c if g(k) == j) for j in (0, 1, 2)] + [tuple(k for k in c if g(k) in (0, 2))][:0]
+    elif spec[0] == 'list' and spec[1] == 'commuting1':
+        d = alg.d
+        pats = [tuple([c[1]] + [c[1 + j] ^ c[2 + j] for j in range(1, d - 1, 2)])]
     elif spec[0] == 'list' and spec[1] == 'scalar+biv2':
         biv = [k for k in c if g(k) == 2]
         pats = [(0, biv[0], biv[-1]), (0, biv[1]), tuple(k for k in c if g(k) == 1)]
